@@ -23,6 +23,7 @@ import (
 
 	"github.com/cossacklabs/acra/encryptor/base/config"
 	"github.com/cossacklabs/acra/pseudonymization/common"
+	"github.com/cossacklabs/acra/utils"
 )
 
 // DataTokenizer tokenizes and detokenizes data buffers.
@@ -48,7 +49,7 @@ func (t *DataTokenizer) Tokenize(data []byte, context common.TokenContext, setti
 	case common.TokenType_Int32:
 		i, err := strconv.ParseInt(string(data), 10, 32)
 		if err != nil {
-			return nil, err
+			return nil, utils.ErrorWithoutValue(err)
 		}
 		newVal, err := anonymize(int32(i), context, common.TokenType_Int32)
 		if err != nil {
@@ -59,7 +60,7 @@ func (t *DataTokenizer) Tokenize(data []byte, context common.TokenContext, setti
 	case common.TokenType_Int64:
 		i, err := strconv.ParseInt(string(data), 10, 64)
 		if err != nil {
-			return nil, err
+			return nil, utils.ErrorWithoutValue(err)
 		}
 		newVal, err := anonymize(i, context, common.TokenType_Int64)
 		if err != nil {
@@ -102,7 +103,7 @@ func (t *DataTokenizer) Detokenize(data []byte, context common.TokenContext, set
 	case common.TokenType_Int32:
 		i, err := strconv.ParseInt(string(data), 10, 32)
 		if err != nil {
-			return nil, err
+			return nil, utils.ErrorWithoutValue(err)
 		}
 		newVal, err := t.tokenizer.Deanonymize(int32(i), context, common.TokenType_Int32)
 		if err != nil {
@@ -113,7 +114,7 @@ func (t *DataTokenizer) Detokenize(data []byte, context common.TokenContext, set
 	case common.TokenType_Int64:
 		i, err := strconv.ParseInt(string(data), 10, 64)
 		if err != nil {
-			return nil, err
+			return nil, utils.ErrorWithoutValue(err)
 		}
 		newVal, err := t.tokenizer.Deanonymize(i, context, common.TokenType_Int64)
 		if err != nil {
